@@ -1,0 +1,241 @@
+//go:build verif
+// +build verif
+
+package gmtls
+
+import (
+	"bytes"
+	"crypto/aes"
+	"crypto/cipher"
+	"crypto/hmac"
+	"crypto/sha256"
+	"io"
+)
+
+// Hooks for the verification harness, property C18 (build tag "verif" only): entry points to the
+// unexported parsers of untrusted bytes. Nothing here changes the behaviour of existing code.
+
+// VerifHandshakeKinds lists the names accepted by VerifUnmarshalHandshake: one per message struct with an
+// unmarshal method; "+sh" selects hasSignatureAndHash = true (TLS 1.2 layout) before parsing.
+func VerifHandshakeKinds() []string {
+	return []string{"clientHello", "serverHello", "certificate", "serverKeyExchange", "certificateStatus",
+		"serverHelloDone", "clientKeyExchange", "finished", "nextProto", "certificateRequest", "certificateRequest+sh",
+		"certificateRequestGM", "certificateVerify", "certificateVerify+sh", "newSessionTicket", "helloRequest"}
+}
+
+type verifHandshakeMessage interface {
+	marshal() []byte
+	unmarshal([]byte) bool
+}
+
+func verifNewMessage(kind string) verifHandshakeMessage {
+	switch kind {
+	case "clientHello":
+		return new(clientHelloMsg)
+	case "serverHello":
+		return new(serverHelloMsg)
+	case "certificate":
+		return new(certificateMsg)
+	case "serverKeyExchange":
+		return new(serverKeyExchangeMsg)
+	case "certificateStatus":
+		return new(certificateStatusMsg)
+	case "serverHelloDone":
+		return new(serverHelloDoneMsg)
+	case "clientKeyExchange":
+		return new(clientKeyExchangeMsg)
+	case "finished":
+		return new(finishedMsg)
+	case "nextProto":
+		return new(nextProtoMsg)
+	case "certificateRequest":
+		return new(certificateRequestMsg)
+	case "certificateRequest+sh":
+		return &certificateRequestMsg{hasSignatureAndHash: true}
+	case "certificateRequestGM":
+		return new(certificateRequestMsgGM)
+	case "certificateVerify":
+		return new(certificateVerifyMsg)
+	case "certificateVerify+sh":
+		return &certificateVerifyMsg{hasSignatureAndHash: true}
+	case "newSessionTicket":
+		return new(newSessionTicketMsg)
+	case "helloRequest":
+		return new(helloRequestMsg)
+	}
+	return nil
+}
+
+// VerifUnmarshalHandshake runs the unmarshal method of the named message struct on data. known is false
+// for a kind that is not in VerifHandshakeKinds. When parsing succeeds the message is marshalled again
+// (the handshake code does this when it adds a received message to the transcript hash).
+func VerifUnmarshalHandshake(kind string, data []byte) (ok, known bool) {
+	m := verifNewMessage(kind)
+	if m == nil {
+		return false, false
+	}
+	ok = m.unmarshal(data)
+	if ok {
+		_ = m.marshal()
+	}
+	return ok, true
+}
+
+// VerifMarshalSamples returns valid encodings of every handshake message type, produced by the marshal
+// methods from populated structs. rnd supplies the variable field contents.
+func VerifMarshalSamples(rnd io.Reader) map[string][][]byte {
+	rb := func(n int) []byte {
+		b := make([]byte, n)
+		io.ReadFull(rnd, b)
+		return b
+	}
+	out := map[string][][]byte{}
+	add := func(kind string, m verifHandshakeMessage) {
+		out[kind] = append(out[kind], append([]byte{}, m.marshal()...))
+	}
+	sigAlgs := []SignatureScheme{PKCS1WithSHA256, ECDSAWithP256AndSHA256, SM2WITHSM3, PKCS1WithSHA1}
+
+	// ClientHello: bare GMSSL hello, TLS 1.2 hello with every extension, resumption with a ticket, renegotiation
+	add("clientHello", &clientHelloMsg{vers: VersionGMSSL, random: rb(32), cipherSuites: []uint16{GMTLS_SM2_WITH_SM4_SM3, GMTLS_ECDHE_SM2_WITH_SM4_SM3},
+		compressionMethods: []uint8{compressionNone}})
+	add("clientHello", &clientHelloMsg{vers: VersionTLS12, random: rb(32), sessionId: rb(32),
+		cipherSuites:       []uint16{TLS_ECDHE_RSA_WITH_AES_128_GCM_SHA256, GMTLS_SM2_WITH_SM4_SM3, 0x00ff},
+		compressionMethods: []uint8{compressionNone}, nextProtoNeg: true, serverName: "server.example.com", ocspStapling: true, scts: true,
+		supportedCurves: []CurveID{X25519, CurveP256, CurveP384}, supportedPoints: []uint8{0}, ticketSupported: true,
+		supportedSignatureAlgorithms: sigAlgs, secureRenegotiationSupported: true, alpnProtocols: []string{"h2", "http/1.1"}})
+	add("clientHello", &clientHelloMsg{vers: VersionTLS12, random: rb(32), sessionId: rb(16), cipherSuites: []uint16{TLS_ECDHE_RSA_WITH_AES_128_GCM_SHA256},
+		compressionMethods: []uint8{compressionNone}, serverName: "a.b", ticketSupported: true, sessionTicket: rb(120),
+		supportedCurves: []CurveID{CurveP256}, supportedPoints: []uint8{0, 1}, secureRenegotiationSupported: true, secureRenegotiation: rb(12)})
+	add("clientHello", &clientHelloMsg{vers: VersionGMSSL, random: rb(32), sessionId: rb(32), cipherSuites: []uint16{GMTLS_ECDHE_SM2_WITH_SM4_SM3},
+		compressionMethods: []uint8{compressionNone}, alpnProtocols: []string{"x"}, supportedSignatureAlgorithms: sigAlgs[:1]})
+
+	// ServerHello
+	add("serverHello", &serverHelloMsg{vers: VersionGMSSL, random: rb(32), sessionId: rb(32), cipherSuite: GMTLS_SM2_WITH_SM4_SM3, compressionMethod: compressionNone})
+	add("serverHello", &serverHelloMsg{vers: VersionTLS12, random: rb(32), sessionId: rb(32), cipherSuite: TLS_ECDHE_RSA_WITH_AES_128_GCM_SHA256,
+		nextProtoNeg: true, nextProtos: []string{"h2", "spdy/3", "http/1.1"}, ocspStapling: true, scts: [][]byte{rb(47), rb(3), rb(118)},
+		ticketSupported: true, secureRenegotiationSupported: true, secureRenegotiation: rb(24), alpnProtocol: "h2"})
+	add("serverHello", &serverHelloMsg{vers: VersionTLS12, random: rb(32), cipherSuite: TLS_ECDHE_RSA_WITH_AES_128_GCM_SHA256,
+		ticketSupported: true, secureRenegotiationSupported: true, alpnProtocol: "http/1.1"})
+	add("serverHello", &serverHelloMsg{vers: VersionTLS12, random: rb(32), sessionId: rb(8), cipherSuite: 0x002f, scts: [][]byte{rb(1)}, ocspStapling: true})
+
+	// Certificate
+	add("certificate", &certificateMsg{})
+	add("certificate", &certificateMsg{certificates: [][]byte{rb(300)}})
+	add("certificate", &certificateMsg{certificates: [][]byte{rb(420), rb(380), rb(1)}})
+
+	add("serverKeyExchange", &serverKeyExchangeMsg{key: rb(2)})
+	add("serverKeyExchange", &serverKeyExchangeMsg{key: append([]byte{3, 0, 23, 65}, rb(65+2+2+72)...)})
+	add("clientKeyExchange", &clientKeyExchangeMsg{ciphertext: rb(1)})
+	add("clientKeyExchange", &clientKeyExchangeMsg{ciphertext: append([]byte{0, 155}, rb(155)...)})
+
+	add("certificateStatus", &certificateStatusMsg{statusType: statusTypeOCSP, response: rb(1)})
+	add("certificateStatus", &certificateStatusMsg{statusType: statusTypeOCSP, response: rb(471)})
+	add("certificateStatus", &certificateStatusMsg{statusType: 2, response: nil})
+
+	add("serverHelloDone", &serverHelloDoneMsg{})
+	add("helloRequest", &helloRequestMsg{})
+
+	add("finished", &finishedMsg{verifyData: rb(12)})
+	add("finished", &finishedMsg{verifyData: rb(36)})
+
+	add("nextProto", &nextProtoMsg{proto: "h2"})
+	add("nextProto", &nextProtoMsg{proto: ""})
+	add("nextProto", &nextProtoMsg{proto: "http/1.1-a-rather-long-protocol-name"})
+
+	add("certificateRequest", &certificateRequestMsg{certificateTypes: []byte{certTypeRSASign, certTypeECDSASign}})
+	add("certificateRequest", &certificateRequestMsg{certificateTypes: []byte{certTypeRSASign}, certificateAuthorities: [][]byte{rb(60), rb(1), rb(131)}})
+	add("certificateRequest+sh", &certificateRequestMsg{hasSignatureAndHash: true, certificateTypes: []byte{certTypeRSASign, certTypeECDSASign}, supportedSignatureAlgorithms: sigAlgs})
+	add("certificateRequest+sh", &certificateRequestMsg{hasSignatureAndHash: true, certificateTypes: []byte{certTypeECDSASign}, supportedSignatureAlgorithms: sigAlgs[:2],
+		certificateAuthorities: [][]byte{rb(77), rb(90)}})
+	add("certificateRequestGM", &certificateRequestMsgGM{certificateTypes: []byte{certTypeRSASign, certTypeECDSASign}})
+	add("certificateRequestGM", &certificateRequestMsgGM{certificateTypes: []byte{certTypeECDSASign}, certificateAuthorities: [][]byte{rb(60), rb(2), rb(140)}})
+
+	add("certificateVerify", &certificateVerifyMsg{signature: rb(71)})
+	add("certificateVerify", &certificateVerifyMsg{signature: rb(256)})
+	add("certificateVerify+sh", &certificateVerifyMsg{hasSignatureAndHash: true, signatureAlgorithm: SM2WITHSM3, signature: rb(72)})
+	add("certificateVerify+sh", &certificateVerifyMsg{hasSignatureAndHash: true, signatureAlgorithm: PKCS1WithSHA256, signature: rb(256)})
+
+	add("newSessionTicket", &newSessionTicketMsg{ticket: nil})
+	add("newSessionTicket", &newSessionTicketMsg{ticket: rb(160)})
+	return out
+}
+
+// VerifSessionStateUnmarshal runs sessionState.unmarshal on data.
+func VerifSessionStateUnmarshal(data []byte) bool {
+	s := new(sessionState)
+	ok := s.unmarshal(data)
+	if ok {
+		_ = s.marshal()
+	}
+	return ok
+}
+
+// VerifSessionStateSamples returns valid serialized session states.
+func VerifSessionStateSamples(rnd io.Reader) [][]byte {
+	rb := func(n int) []byte {
+		b := make([]byte, n)
+		io.ReadFull(rnd, b)
+		return b
+	}
+	return [][]byte{
+		(&sessionState{vers: VersionGMSSL, cipherSuite: GMTLS_SM2_WITH_SM4_SM3, masterSecret: rb(48)}).marshal(),
+		(&sessionState{vers: VersionTLS12, cipherSuite: TLS_ECDHE_RSA_WITH_AES_128_GCM_SHA256, masterSecret: rb(48), certificates: [][]byte{rb(310)}}).marshal(),
+		(&sessionState{vers: VersionGMSSL, cipherSuite: GMTLS_ECDHE_SM2_WITH_SM4_SM3, masterSecret: rb(48), certificates: [][]byte{rb(200), rb(1), rb(260)}}).marshal(),
+		(&sessionState{vers: VersionTLS12, cipherSuite: 0x002f, masterSecret: nil, certificates: [][]byte{{}}}).marshal(),
+	}
+}
+
+// verifTicketConn returns a server-side Conn whose Config has its session ticket keys set from key.
+func verifTicketConn(key [32]byte, rnd io.Reader) *Conn {
+	cfg := &Config{Rand: rnd}
+	cfg.SetSessionTicketKeys([][32]byte{key})
+	return &Conn{config: cfg}
+}
+
+// VerifDecryptTicket runs Conn.decryptTicket (which parses the decrypted session state) on a Conn whose
+// ticket key is key. It returns the re-serialized session state and the parser's verdict.
+func VerifDecryptTicket(key [32]byte, encrypted []byte) ([]byte, bool) {
+	c := verifTicketConn(key, nil)
+	st, ok := c.decryptTicket(encrypted)
+	if st == nil || !ok {
+		return nil, ok
+	}
+	return st.marshal(), ok
+}
+
+// VerifEncryptTicket runs Conn.encryptTicket on the session state serialized in state (nil if state does
+// not parse as a session state); the IV is read from rnd.
+func VerifEncryptTicket(key [32]byte, state []byte, rnd io.Reader) []byte {
+	s := new(sessionState)
+	if !s.unmarshal(state) {
+		return nil
+	}
+	out, err := verifTicketConn(key, rnd).encryptTicket(s)
+	if err != nil {
+		return nil
+	}
+	return out
+}
+
+// VerifSealTicket produces the ticket format of encryptTicket (key name, IV, AES-CTR ciphertext,
+// HMAC-SHA256) around arbitrary plaintext bytes, so that decryptTicket reaches its session state parser
+// with bytes that are not a valid session state. iv must be 16 bytes.
+func VerifSealTicket(key [32]byte, plaintext, iv []byte) []byte {
+	if len(iv) != aes.BlockSize {
+		return nil
+	}
+	k := ticketKeyFromBytes(key)
+	var buf bytes.Buffer
+	buf.Write(k.keyName[:])
+	buf.Write(iv)
+	block, err := aes.NewCipher(k.aesKey[:])
+	if err != nil {
+		return nil
+	}
+	ct := make([]byte, len(plaintext))
+	cipher.NewCTR(block, iv).XORKeyStream(ct, plaintext)
+	buf.Write(ct)
+	mac := hmac.New(sha256.New, k.hmacKey[:])
+	mac.Write(buf.Bytes())
+	return mac.Sum(buf.Bytes())
+}
